@@ -290,12 +290,12 @@ func normalizeArg(v interface{}, loc *time.Location) (interface{}, error) {
 		}
 		return int64(0), nil
 	case json.RawMessage:
-		return append([]byte(nil), x...), nil
+		return cloneBytes(x), nil
 	case []byte:
 		if x == nil {
 			return nil, nil
 		}
-		return append([]byte(nil), x...), nil
+		return cloneBytes(x), nil
 	case string:
 		return x, nil
 	case time.Time:
@@ -626,7 +626,7 @@ func bitBytes(u uint64, bits int) []byte {
 func textBytes(v interface{}, m *colMeta) []byte {
 	switch x := v.(type) {
 	case []byte:
-		return append([]byte(nil), x...)
+		return cloneBytes(x)
 	case timeVal:
 		return []byte(formatTimeVal(x, m.fieldType, int(m.decimals)))
 	case float64:
@@ -647,7 +647,10 @@ func textBytes(v interface{}, m *colMeta) []byte {
 			return []byte(fmt.Sprintf("%04d", x))
 		}
 	}
-	return []byte(valueText(v))
+	if b := []byte(valueText(v)); b != nil {
+		return b
+	}
+	return []byte{}
 }
 
 // wireValue converts an internal value to what go-sql-driver/mysql v1.6.0 hands to database/sql:
